@@ -330,7 +330,9 @@ func famSesWtUpg(t *testing.T, r *Rec) {
 	frameOf := map[string]string{"probe": "3270726f6265", "ping": "32", "pong": "33", "msg": "346e6f", "upgrade": "35", "noop": "36", "garbage": "7a7a"}
 	scripts := [][]string{{"probe", "upgrade"}, {"upgrade"}, {"probe", "msg"}, {"garbage"}, {"probe", "drop"}, {"drop"}}
 	if r.thorough() {
-		alphabet := []string{"probe", "ping", "pong", "msg", "upgrade", "noop", "garbage", "drop", "silence"}
+		// (no "silence": the upgrade timeout is a timer, and real time is not the model's clock; the WebSocket
+		// family covers it under the bubble's virtual clock)
+		alphabet := []string{"probe", "ping", "pong", "msg", "upgrade", "noop", "garbage", "drop"}
 		scripts = nil
 		for _, a := range alphabet {
 			scripts = append(scripts, []string{a})
@@ -341,7 +343,7 @@ func famSesWtUpg(t *testing.T, r *Rec) {
 			}
 		}
 	}
-	const U = 600
+	const U = 60000 // never fires within a scenario
 	for _, script := range scripts {
 		lines := []string{fmt.Sprintf(wtqCfg, U), "ses hs polling 4 0 -", "ses send s0 t 6d31 0 0 -", "ses poll s0", "ses wt s0"}
 		candAlive, upgraded := true, false
